@@ -32,8 +32,12 @@ type Cfg struct {
 	TsIncrement     uint64
 	Epoch           time.Time
 	SubscribeProbe  bool
-	SaltedSigs      bool // block signatures are randomised like ECDSA, see vt.SaltedSigs
-	PreDataTxOnly   bool // pre-commit shares are bound to (height, transactions) only, see vt.PreDataTxOnly
+	// BlockTimeByTip: when set, the block-time callbacks follow the ledger (chain-governed settings): they return the
+	// pair valid on top of the node's current tip, so a pair read after the tip moved (block sync before Reset)
+	// differs from the one the library saved when it entered the height.  Always a consistent pair (max >= min).
+	BlockTimeByTip func(tip uint32) (tpb, maxTpb time.Duration)
+	SaltedSigs     bool // block signatures are randomised like ECDSA, see vt.SaltedSigs
+	PreDataTxOnly  bool // pre-commit shares are bound to (height, transactions) only, see vt.PreDataTxOnly
 }
 
 func (c *Cfg) AMEVOn(h uint32) bool { return c.AMEVHeight >= 0 && uint32(c.AMEVHeight) <= h }
